@@ -289,6 +289,22 @@ def run(ctx):
             forced = '31031=%d.%d.%d' % bits
         cases.append({'ids': ids, 'version': 33, 'edition': 4, 'nsub': rng.choice([1, 2]), 'compressed': False, 'forced': forced,
                       'seed': rng.randrange(1, 2 ** 32), 'maxrep': 3, 'features': {'nested-204-then-outer': 1}, 'shared': False})
+    # a delayed replication FACTOR that owns an attribute (a bitmap whose zero bit selects the 031001/031002): its
+    # attribute lines are the dotted ones of the nested text
+    for k in range(ctx.n(12, 150)):
+        a, b2 = rng.sample([4004, 12001, 1001, 2001, 5002, 10004], 2)
+        cnt = rng.choice([0, 1, 2])
+        op = rng.choice([222, 222, 223, 224])
+        fac = rng.choice([31001, 31001, 31002])
+        nel = 2 + cnt
+        bits = [rng.randrange(2) for _ in range(nel)]
+        bits[1] = 0
+        zeros = bits.count(0)
+        tail = [33007] * zeros if op == 222 else ([8023] if op == 224 else []) + [op * 1000 + 255] * zeros
+        ids = [a, 101000, fac, b2, op * 1000, 236000, 101000 + nel, 31031] + tail
+        cases.append({'ids': ids, 'version': 33, 'edition': 4, 'nsub': rng.choice([1, 2]), 'compressed': False,
+                      'forced': '%d=%d;31031=%s' % (fac, cnt, '.'.join(map(str, bits))), 'seed': rng.randrange(1, 2 ** 32),
+                      'maxrep': 3, 'features': {'factor-with-attribute': 1}, 'shared': True})
     P.attach_templates(cases)
     P.run_gen(cases)
     P.run_encode(cases)
